@@ -515,3 +515,43 @@ package spine
 //@   ensures[C03] gate-permission: OK && CLS == model.CmdClassifierTypeWrite && LF != nil && cmdHasData(datagram.Payload.Cmd[0]) && cmdHasFct(datagram.Payload.Cmd[0]) && old(!(has(LF.Operations(), cmdFct(datagram.Payload.Cmd[0])) && LF.Operations()[cmdFct(datagram.Payload.Cmd[0])].Write())) ==> result != nil && rn[S] == K + 1 && rcls[S][K] == model.CmdClassifierTypeResult && rerr[S][K] != model.ErrorNumberTypeNoError && hmn == old(hmn)
 //@   ensures[C03] gate-binding: OK && CLS == model.CmdClassifierTypeWrite && LF != nil && old(!r.bindingManager.HasLocalFeatureRemoteBinding(LF.Address(), RF.Address())) ==> result != nil && rn[S] == K + 1 && rcls[S][K] == model.CmdClassifierTypeResult && rerr[S][K] != model.ErrorNumberTypeNoError && hmn == old(hmn)
 //@   modifies @RESP, @PUBLISH, world, held, spawn, hmn, sendfails
+
+// representation link between the interface-level getters and the fields of the production types
+//@ axiom forall p *FeatureLocal :: {asIface(p, api.FeatureLocalInterface).Address()} p != nil ==> asIface(p, api.FeatureLocalInterface).Address() == p.address
+//@ axiom forall p *NodeManagement :: {asIface(p, api.FeatureLocalInterface).Address()} p != nil ==> asIface(p, api.FeatureLocalInterface).Address() == p.FeatureLocal.address
+
+//@ func (*FeatureLocal).processRead
+//@   requires r != nil && featureRemote != nil && requestHeader != nil && requestHeader.AddressDestination != nil && r.Feature != nil && r.address != nil
+//@   let S = featureRemote.Device().Sender()
+//@   let K = rn[S]
+//@   ensures[C01] client-rejects: r.role == model.RoleTypeClient ==> result != nil
+//@   ensures[C01] error-silent: result != nil ==> respSame && result.ErrorNumber != model.ErrorNumberTypeNoError
+//@   ensures[C01] replied: result == nil ==> respAppended(S, K) && rcls[S][K] == model.CmdClassifierTypeReply && answers(S, K, requestHeader, r.address) && sendfails == old(sendfails)
+//@   ensures[C01] fails-counted: sendfails >= old(sendfails)
+//@   modifies @RESP, outmisc, sendfails
+
+//@ func (*FeatureLocal).processNotify
+//@   requires r != nil && featureRemote != nil
+//@   ensures[C01] no-response: respSame && sendfails == old(sendfails)
+//@   ensures[C01] error-number: result != nil ==> result.ErrorNumber != model.ErrorNumberTypeNoError
+//@   modifies @PUBLISH, world
+
+//@ func (*FeatureLocal).executeWrite
+//@   requires r != nil && msg != nil && msg.FeatureRemote != nil
+//@   ensures[C01] no-response: respSame && sendfails == old(sendfails)
+//@   ensures[C01] error-number: result != nil ==> result.ErrorNumber != model.ErrorNumberTypeNoError
+//@   modifies @PUBLISH, world, held
+
+//@ func (*FeatureLocal).processWrite
+//@   requires r != nil && msg != nil && msg.FeatureRemote != nil && msg.RequestHeader != nil && msg.RequestHeader.AddressDestination != nil && r.Feature != nil && r.address != nil
+//@   let S = msg.FeatureRemote.Device().Sender()
+//@   let K = rn[S]
+//@   let ACK = msg.RequestHeader.AckRequest != nil && *msg.RequestHeader.AckRequest
+//@   define OK = sendfails == old(sendfails)
+//@   ensures[C01] at-most-one: K <= rn[S] && rn[S] <= K + 1 && sendfails >= old(sendfails)
+//@   ensures[C01] shape: rn[S] == K + 1 ==> rcls[S][K] == model.CmdClassifierTypeResult && answers(S, K, msg.RequestHeader, r.address)
+//@   ensures[C01] ack-answered: OK && ACK ==> rn[S] == K + 1
+//@   ensures[C01] noack-only-errors: rn[S] == K + 1 && !ACK ==> rerr[S][K] != model.ErrorNumberTypeNoError
+//@   ensures[C01] others: forall s any :: s != S ==> rn[s] == old(rn)[s]
+//@   ensures[C01] older: forall k int :: k < K ==> rcls[S][k] == old(rcls)[S][k] && rerr[S][k] == old(rerr)[S][k]
+//@   modifies @RESP, @PUBLISH, world, held, sendfails
